@@ -42,6 +42,8 @@ var c10Stale = [][2][]string{ // {stale packets queued towards the server, towar
 	{{"DATA", "ACK"}, {"SYN'", "DATA"}},
 	{{"SYN'", "SYNACK", "DATA"}, {"ACK"}},
 	{{"PING"}, {"PING"}},
+	{{"SYN'", "SYN255", "SYNACK"}, nil},
+	{{"SYN'", "SYN'", "SYNACK", "DATA"}, {"SYNACK"}},
 }
 
 func stalePacket(kind string, n uint8) []byte {
@@ -86,7 +88,7 @@ func TestC10(t *testing.T) {
 	mon.Main(t, mon.Check{
 		ID:    "C10",
 		Level: "fault_enumeration",
-		Rule: "real gbn handshake code in virtual time. Enumeration: every decision vector in {deliver, drop, duplicate in order, delay past the handshake timeout}^(2k) over the first k packets of each direction (k=2 quick: 256 vectors, k=3 thorough: 4096) x 3 start orders (client first, server first, same instant) x 16 stale-prefix configurations (packets of an earlier connection queued in either direction: SYN with another N, SYN(255), SYNACK, DATA, PING, ACK+NACK, FIN and mixes), full product in both tiers; window N rotating over {1,20,254} in quick, N=20 plus all N in 1..254 for the no-fault and single-fault rows in thorough. Drivers behave like the mailbox layer: the server re-listens after a failed or finished connection, the client re-dials (up to 10 attempts) when a constructor fails or its first request is not answered within 20 s; keepalive as the mailbox configures it (7s/3s client, 5s/3s server). Oracles: a server that enters the data phase has a representable window (n != 255, sequence space n+1 > n) that appeared in some SYN delivered to it; when data flows both ends use the client's N; after the faulty prefix a handshake succeeds and one message is delivered in each direction within 15 virtual minutes; no worker death. Non-trivial = at least one fault decision or stale packet; distinct = (vector, order, stale, N).",
+		Rule:  "real gbn handshake code in virtual time. Enumeration: every decision vector in {deliver, drop, duplicate in order, delay past the handshake timeout}^(2k) over the first k packets of each direction (k=2 quick: 256 vectors, k=3 thorough: 4096) x 3 start orders (client first, server first, same instant) x 18 stale-prefix configurations (packets of an earlier connection queued in either direction: SYN with another N, SYN(255), SYNACK, DATA, PING, ACK+NACK, FIN and mixes), full product in both tiers; window N rotating over {1,20,254} in quick, N=20 plus all N in 1..254 for the no-fault and single-fault rows in thorough. Drivers behave like the mailbox layer: the server re-listens after a failed or finished connection, the client re-dials (up to 10 attempts) when a constructor fails or its first request is not answered within 20 s; keepalive as the mailbox configures it (7s/3s client, 5s/3s server). Oracles: a server that enters the data phase has a representable window (n != 255, sequence space n+1 > n) that appeared in some SYN delivered to it; when data flows both ends use the client's N; after the faulty prefix a handshake succeeds and one message is delivered in each direction within 15 virtual minutes; no worker death. Non-trivial = at least one fault decision or stale packet; distinct = (vector, order, stale, N).",
 		Assumptions: []string{
 			"stale SYNs that were really delivered to the server are not held against it (it cannot tell them apart)",
 			"transport preserves per-direction order",
